@@ -151,6 +151,16 @@ fn emit_wrapped_loop_choice_header(
         json!("/str"),
     ];
 
+    // The choice-only ("[bracket]") text is its own string: the runtime pops one string
+    // for the start content and another for the choice-only content.
+    emit_choice_text_segment(
+        &choice.choice_only_text,
+        &choice.choice_only_tags,
+        &mut arr,
+        scope,
+        context,
+    )?;
+
     for (index, condition) in choice.conditions.iter().enumerate() {
         emit_condition(condition, &mut arr, scope, context)?;
         if index > 0 {
@@ -168,13 +178,6 @@ fn emit_wrapped_loop_choice_header(
     emit_choice_text_content(
         &choice.start_text,
         &choice.start_tags,
-        &mut s,
-        scope,
-        context,
-    )?;
-    emit_choice_text_content(
-        &choice.choice_only_text,
-        &choice.choice_only_tags,
         &mut s,
         scope,
         context,
